@@ -258,3 +258,14 @@ class time_limit:
         signal.setitimer(signal.ITIMER_REAL, 0)
         signal.signal(signal.SIGALRM, self._old)
         return False
+
+
+def call_limited(fn, limit=20, factor=15):
+    """fn() under a time limit; a time-out is retried once with a much longer limit, so that
+    only a reproducible non-termination (not a busy machine) is reported as ImplTimeout."""
+    try:
+        with time_limit(limit):
+            return fn()
+    except ImplTimeout:
+        with time_limit(limit * factor):
+            return fn()
